@@ -127,6 +127,11 @@ impl Story {
                 break;
             }
 
+            #[cfg(feature = "verif-hooks")]
+            if self.async_continue_active && crate::verif::async_tick() {
+                break;
+            }
+
             if !self.can_continue() {
                 break;
             }
